@@ -4,8 +4,8 @@ import json, os, glob
 
 root = os.path.join(os.path.dirname(os.path.dirname(os.path.abspath(__file__))), "seeded")
 rows = []
-for d in sorted(glob.glob(os.path.join(root, "C*"))):
-    pid = os.path.basename(d)
+for d in sorted(glob.glob(os.path.join(root, "C*")) + glob.glob(os.path.join(root, "C*", "v[0-9]*"))):
+    pid = os.path.relpath(d, root)
     meta = {}
     res = {}
     try:
